@@ -446,3 +446,110 @@ func runPatchRefusalIsFatal(c *Ctx, rule string) {
 	c.Floor(rule, 6)
 	_ = n
 }
+
+// ---- C18-E7: an error carried around a loop is not overwritten by a later iteration.
+//
+// A loop that closes or flushes several outputs and reports one error at the end keeps that error
+// in a variable that lives across iterations (a phi at the loop header).  If the value coming
+// round the back edge is the fresh result of this iteration — not merged with the old value, and
+// not known nil on that edge — a failure of an earlier iteration is replaced by a later success.
+func runLoopErrorNotOverwritten(c *Ctx, rule string, pkgs ...string) {
+	p := c.P
+	c.Rule(rule, "an error carried around a loop survives later iterations: for every error-typed phi at a loop header on the write path, the value arriving on a back edge is merged with the old value (its phi chain contains the header phi) or is known nil on that edge (the back edge is dominated by the nil edge of a test of it)")
+	n := 0
+	for _, fn := range p.FuncsIn(pkgs...) {
+		if fn.Blocks == nil {
+			continue
+		}
+		for _, h := range fn.Blocks {
+			for _, in := range h.Instrs {
+				phi, ok := in.(*ssa.Phi)
+				if !ok {
+					break
+				}
+				if !isError(phi.Type()) || phi.Referrers() == nil || len(*phi.Referrers()) == 0 {
+					continue
+				}
+				for k, pred := range h.Preds {
+					if !h.Dominates(pred) {
+						continue // not a back edge
+					}
+					v := phi.Edges[k]
+					if isNilConst(v) {
+						continue
+					}
+					n++
+					construct := constructName(fn) + " carries " + phi.Comment + " around a loop"
+					// merged with the old value?
+					seen := map[ssa.Value]bool{}
+					var has func(x ssa.Value) bool
+					has = func(x ssa.Value) bool {
+						if x == ssa.Value(phi) {
+							return true
+						}
+						if seen[x] {
+							return false
+						}
+						seen[x] = true
+						if q, ok := x.(*ssa.Phi); ok {
+							for _, e := range q.Edges {
+								if has(e) {
+									return true
+								}
+							}
+						}
+						return false
+					}
+					if has(v) {
+						c.OK(rule, construct, phi.Pos(), "the back-edge value merges the old value")
+						continue
+					}
+					// known nil on the back edge?
+					knownNil := false
+					if v.Referrers() != nil {
+						for _, r := range *v.Referrers() {
+							bo, ok := r.(*ssa.BinOp)
+							if !ok || !(isNilConst(bo.X) || isNilConst(bo.Y)) {
+								continue
+							}
+							for _, rr := range *bo.Referrers() {
+								iff, ok := rr.(*ssa.If)
+								if !ok {
+									continue
+								}
+								nilEdge := 0
+								if bo.Op.String() == "!=" {
+									nilEdge = 1
+								}
+								s := iff.Block().Succs[nilEdge]
+								if (s == pred || s.Dominates(pred) || s == h) && len(s.Preds) >= 1 {
+									knownNil = true
+								}
+							}
+						}
+					}
+					if knownNil {
+						c.OK(rule, construct, phi.Pos(), "the loop continues only while the fresh error is nil")
+						continue
+					}
+					// is the old value examined in the loop before it is replaced (tested or returned)?
+					examined := false
+					for _, r := range *phi.Referrers() {
+						switch x := r.(type) {
+						case *ssa.BinOp:
+							if (isNilConst(x.X) || isNilConst(x.Y)) && h.Dominates(x.Block()) {
+								examined = true
+							}
+						}
+					}
+					if examined {
+						c.OK(rule, construct, phi.Pos(), "the carried error is tested inside the loop")
+						continue
+					}
+					c.Fail(rule, construct, v.Pos(), "the error kept across iterations is replaced by the result of the latest iteration whatever it held: when one output fails to flush and a later one closes cleanly, nil is reported and the truncated output is taken for written")
+				}
+			}
+		}
+	}
+	c.extra(rule+"_loop_carried_errors", n)
+}
